@@ -151,6 +151,8 @@ func CheckC19(c *Ctx) {
 	c.constructorDiscipline("reader/construction", "asset", "helper", "backtest")
 	c.closeHelpers()
 	c.decodeTargets()
+	c.errorOrientation("reader/error-orientation", "asset", "helper")
+	run.Floor("error_tests", 30)
 	if ok := panicSourcesSelfTest(); !ok {
 		run.Break("the panic-source detector no longer finds its built-in example")
 	} else {
